@@ -170,6 +170,9 @@ func (w *World) addSpecFile(sf *SpecFile) error {
 		if c.Denotes != nil {
 			collectSelNames(c.Denotes, w.specFieldNames)
 		}
+		for _, a := range c.Anchored {
+			collectSelNames(a.C.E, w.specFieldNames)
+		}
 	}
 	for _, p := range sf.Preds {
 		w.preds[p.Pkg+"\x00"+p.Name] = p
